@@ -184,6 +184,9 @@ def followups(kind):
                         out.append((i, fa, choice, rep, path))
                     if choice != "unparsable":
                         out.append((i, fa, choice, rep, "one-call-two-values:dict-then-list"))
+                    if choice != "unparsable" and rep == "qname" and fa != "collection":
+                        # the same call also names prov:collection (the marker of the membership compatibility path)
+                        out.append((i, fa, choice, rep, "attrs-list+collection"))
     return out
 
 
@@ -215,6 +218,22 @@ def apply_followup(doc, rec, model, fu):
         else:
             thunk = lambda: rec.add_attributes(tuple(reversed(pairs))) if choice != "different" else rec.add_attributes(pairs)
         return expected, thunk, new_model
+    if path == "attrs-list+collection":
+        uri = PROV_URI + fa
+        curi, cval = PROV_URI + "collection", ("qn", A + "v0")
+        local = "v%d" % i if choice == "same" else "w%d" % i
+        val, vo = ref_value(doc, local, rep), ("qn", A + local)
+        with_coll = dict(model)
+        if with_coll.setdefault(curi, cval) != cval:
+            return "skip", (lambda: None), model
+        if uri not in with_coll:
+            expected, new_model = "ok", dict(with_coll, **{uri: vo})
+        elif with_coll[uri] == vo:
+            expected, new_model = "ok", with_coll
+        else:
+            # the collection attribute may have been stored before the refusal
+            expected, new_model = "refuse-partial", with_coll
+        return expected, (lambda: rec.add_attributes([(PROV["collection"], "ex:v0"), (PROV[fa], val)])), new_model
     uri = PROV_URI + fa
     if fa in TIME_ATTRS:
         if choice == "same":
@@ -274,7 +293,10 @@ class C05(spec.Spec):
         fus = followups(kind)
         seqs = [()] + [(f,) for f in fus]
         if self.nfollow >= 2:
-            seqs += [(f, g) for f in fus for g in fus if f[0] <= g[0] or True]
+            # pairs: every follow-up, then every follow-up in a canonical representation (the second
+            # call's representation is explored by the single follow-ups; the full square is 4x the cost)
+            canon = [g for g in fus if g[3] in ("qname", "string", "datetime", "iso")]
+            seqs += [(f, g) for f in fus for g in canon]
         for seq in seqs:
             self.run(item, seq, out)
 
@@ -302,6 +324,8 @@ class C05(spec.Spec):
             return
         for fu in seq:
             expected, thunk, new_model = apply_followup(doc, rec, model, fu)
+            if expected == "skip":
+                continue
             before = observe.robs(rec)
             raised = None
             try:
@@ -559,7 +583,7 @@ def main(tier, seed):
         "evaluations": out.evaluations,
         "distinct_nontrivial": out.nontrivial,
         "rule": ("full product: 18 record kinds x 5 creation paths (typed factory, element convenience method, new_record with dict / pair list / string keys) x argument representations x optional-argument "
-                 "masks, each followed by every sequence of <= %d follow-up additions (formal attribute x {same, "
+                 "masks, each followed by every sequence of <= %d follow-up additions (the second of a pair in a canonical representation; formal attribute x {same, "
                  "different, unparsable} x representation x add_attributes dict/list/set_time); plus %d literal-vs-"
                  "native cases; a case is distinct by its call sequence; non-trivial = ran to the end in lock-step "
                  "with the reference record" % (sp.nfollow, len(lit_items))),
